@@ -430,7 +430,7 @@ def wrap_ufunc(
                 r = convert_nan(r)
         except FoundError as ex:
             r = ex.err
-        except (ValueError, TypeError):
+        except (ValueError, TypeError, AssertionError):
             r = Error.errors['#VALUE!']
         return r
 
